@@ -43,7 +43,8 @@ CHUNKS_PER_WORKER = 10
 
 INFIX = {'*': operator.mul, '^': operator.xor, '|': operator.or_, '&': operator.and_, '>>': operator.rshift, '@': operator.matmul,
          '+': operator.add, '-': operator.sub, '/': operator.truediv}
-INDEXES = ['0', '-1', '1', 'slice(0,2)', '(0,)', '(1,2)', '(slice(None),1)', '(Ellipsis,0)', '(-1,slice(1,3))']
+INDEXES = ['0', '-1', '1', 'slice(0,2)', '(0,)', '(1,2)', '(slice(None),1)', '(Ellipsis,0)', '(-1,slice(1,3))', '[0, 1]', '[1, 0, 1]', '[True, False]',
+           '[True, False, True]', '([0, 1], slice(0, 2))']
 BIN = ['gp', 'op', 'ip', 'rp', 'sw', 'proj', 'add', 'sub', 'cp', 'lc', 'div']
 UN = ['neg', 'reverse', 'involute', 'conjugate', 'hodge', 'normsq', 'inv', 'outerexp']
 
@@ -92,7 +93,7 @@ def _index_ok(i, shape):
         return False
     try:
         np.empty(shape)[idx]
-    except IndexError:
+    except (IndexError, ValueError):
         return False
     return True
 
